@@ -413,7 +413,7 @@ def _ch11_obj(cls, f, p):
     o = ADAPTERS[cls].ctor()
     # `_order` (a permutation seed): the attributes are plain data, so the order in which a caller assigns them —
     # payload before or after the flags, the time stamp first or last — must not matter
-    keys = [k for k in f if k not in ("_via_decode", "_order")] + ["payload"]
+    keys = [k for k in f if k not in ("_via_decode", "_order", "_legacy")] + ["payload"]
     if f.get("_order") is not None:
         core.Rng(f["_order"]).shuffle(keys)
     for k in keys:
@@ -465,7 +465,7 @@ def check_ch11_layout(args):
     if st[0] != "ok":
         return ("%s.unpack raised (%s) on the encoding of a well-formed packet %r" % (cls, st[1], f), dict(tags, check="roundtrip"))
     for k, v in f.items():
-        if k in ("_order", "_via_decode"):
+        if k in ("_order", "_via_decode", "_legacy"):
             continue
         got = getattr(q, k)
         if k == "ptptime":
@@ -760,6 +760,8 @@ def file_items(rng, n_pkts=None, with_junk=True):
                       "datalen": rng.randrange(0, 50)})
             items.append(("obj", f, p))
         elif c < 0.4:
+            if rng.random() < 0.3 and "Chapter10" in ADAPTERS:
+                f["_legacy"] = True
             items.append(("obj", f, p))
         elif c < 0.55 and len(p) % 4 == 0:
             f["_via_decode"] = True
@@ -774,7 +776,7 @@ def item_texts(items, cls="Chapter11"):
     out = []
     for it in items:
         if it[0] == "obj":
-            f = dict(it[1]); f.pop("_via_decode", None); f["payload"] = it[2]
+            f = dict(it[1]); f.pop("_via_decode", None); f.pop("_legacy", None); f["payload"] = it[2]
             out.append("%s{%s}" % (cls, ",".join("%s=%s" % (k, _txt(v)) for k, v in f.items())))
         else:
             out.append(hexb(it[1]))
@@ -887,9 +889,13 @@ def _write_file(path, items, reuse=False):
             if it[0] != "obj":
                 f.write(it[1])
             elif not reuse:
-                f.write(_ch11_obj("Chapter11", it[1], it[2]))
+                # `_legacy`: the object is an instance of the deprecated subclass AcraNetwork.Chapter10.Chapter10 — still a
+                # Chapter 11 packet object (C19: it encodes identically), so a writer must take it
+                f.write(_ch11_obj("Chapter10" if it[1].get("_legacy") else "Chapter11", it[1], it[2]))
             else:
                 for k, v in it[1].items():
+                    if k in ("_legacy", "_order", "_via_decode"):
+                        continue
                     if k == "ptptime":
                         shared.ptptime = ch11.PTPTime(v["seconds"], v["nanoseconds"])
                     else:
